@@ -25,6 +25,11 @@ Handled(x) == x.res = "err" /\ x.op.op \in {"write_col", "end_row"} /\ "cont" \i
 \* ---- was a refusal justified? ----
 \* Refusals come back as InvalidData / Other; other kinds are connection errors and are judged elsewhere.
 KindOf(x) == IF "kind" \in DOMAIN x THEN x.kind ELSE "InvalidData"
+\* error kinds that can only come from the connection underneath the writer; every other kind of a failed
+\* writer call is a refusal by the library (the tree uses InvalidData and Other; a different choice of kind
+\* for refusals is not constrained by any property)
+TransportKinds == {"WriteZero", "BrokenPipe", "ConnectionReset", "ConnectionAborted", "ConnectionRefused", "NotConnected",
+                   "TimedOut", "UnexpectedEof", "Interrupted", "WouldBlock"}
 RustInts == {"i8", "u8", "i16", "u16", "i32", "u32", "i64", "u64", "isize", "usize"}
 \* x = a refused call (res = "err"), cur = the row-writer state it met: violations if the call had to be accepted
 Refusal(x, cur, ctx) ==
@@ -32,7 +37,7 @@ Refusal(x, cur, ctx) ==
       nc == Len(cur.cols)
       k == Len(cur.cells) + 1
   IN
-  IF KindOf(x) \notin {"InvalidData", "Other"} THEN {}
+  IF KindOf(x) \in TransportKinds \/ KindOf(x) = "" THEN {}
   ELSE IF o.op = "write_col" THEN
      (IF nc = 0 THEN {V("C03", ctx.at, "write_col refused in a zero-column resultset")}
       ELSE IF ~ctx.bin THEN
